@@ -26,7 +26,8 @@ Print Assumptions C05_refines.
 
 (* a merged key stays in the class of its members (needs wf: C05_unnamed_refuted) *)
 Theorem C05_key_class : forall lvl k m, wf_sig k = true -> wf_sig m = true ->
-  sig_similar lvl k m = true -> canon_sig_eqb lvl (sig_merge k m) k = true /\ wf_sig (sig_merge k m) = true.
+  sig_similar lvl k m = true ->
+  canon_sig_eqb lvl (sig_merge k m) k = true /\ (lvl <> AnyValue -> wf_sig (sig_merge k m) = true).
 Proof. exact Aggregate.key_class. Qed.
 Print Assumptions C05_key_class.
 
